@@ -82,6 +82,10 @@ def _materialise(root: str, files: dict) -> None:
         if text is None:
             os.makedirs(p, exist_ok=True)
             continue
+        if isinstance(text, dict):  # {"hex": "..."}: bytes written verbatim (byte order marks, other encodings, CRLF)
+            with open(p, "wb") as fh:
+                fh.write(bytes.fromhex(text["hex"]))
+            continue
         with open(p, "w", encoding="utf-8", newline="") as fh:
             fh.write(text)
 
